@@ -48,10 +48,12 @@ REPS = [
     ("d12", "{:0, 1: 2}", ["d", [[cI(1), cI(2)]], cI(0)]),
     # a non-real complex number whose real part is -0.0 / +0.0 (equal, different bits)
     ("negi", "(-1i)", ["c", cF(-0.0)[1], cF(-1.0)[1]]), ("negi", "(0 - 1i)", ["c", cF(0.0)[1], cF(-1.0)[1]]),
+    # -2^63: the one machine word whose magnitude needs 64 bits - as a machine word, in big representation, as a float
+    ("m63", "(0 - 9223372036854775807 - 1)", cI(-2 ** 63)), ("m63", "((0 - 2)^63)", cI(-2 ** 63)), ("m63", "(0.0 - 2.0^63)", cF(-2.0 ** 63)),
 ]
-QUICK_REPS = [0, 1, 2, 5, 6, 10, 11, 13, 14, 17, 30, 19, 22, 23, 26, 27, 31, 32]       # 1, 1.0, 2/2, 1/2, 0.5, 2^64, 2.0^64, [1], [1.0], "1", V(1, NaN), V(1.0, NaN)
+QUICK_REPS = [0, 1, 2, 5, 6, 10, 11, 13, 14, 17, 30, 19, 22, 23, 26, 27, 31, 32, 33, 34, 35]       # 1, 1.0, 2/2, 1/2, 0.5, 2^64, 2.0^64, [1], [1.0], "1", V(1, NaN), V(1.0, NaN)
 # depth-3 search: 21 representatives ([NaN], {1: NaN} and the two spellings of 1/3 stay in the grid family, which uses every representative)
-MID_REPS = [0, 1, 2, 3, 4, 5, 6, 7, 9, 10, 11, 12, 13, 14, 15, 16, 17, 30, 19, 22, 23, 26, 27, 31, 32]
+MID_REPS = [0, 1, 2, 3, 4, 5, 6, 7, 9, 10, 11, 12, 13, 14, 15, 16, 17, 30, 19, 22, 23, 26, 27, 31, 32, 33, 34, 35]
 
 OPS = ["set", "inc", "rem", "add", "sub", "merge", "inter", "minus", "plus", "ins"]
 RAISE = "raise"
@@ -61,11 +63,26 @@ def reps_for(tier):
     return QUICK_REPS if tier == "quick" else MID_REPS
 
 
+# thorough tier: every representative to depth 2, and a core of 16 (two per class that has two) to depth 3
+CORE_REPS = [0, 1, 2, 5, 6, 7, 9, 10, 11, 12, 13, 14, 22, 23, 26, 27]
+
+
 def starts(tier):
-    return [{"name": "empty", "pre": "d := {}", "model": {}, "default": "none"},
+    base = [{"name": "empty", "pre": "d := {}", "model": {}, "default": "none"},
             {"name": "default0", "pre": "d := {:0}", "model": {}, "default": 0},
             {"name": "populated", "pre": "d := {1.0: 10, (1/2): 20, [1]: 30}",
              "model": {"one": [1, 10], "half": [5, 20], "l1": [13, 30]}, "default": "none"}]
+    if tier == "quick":
+        return [dict(b, mode="all") for b in base]
+    return [dict(b, mode="all") for b in base] + [dict(b, mode="core", name=b["name"] + "/core") for b in base]
+
+
+def alphabet_h(tier, start, hist):
+    if start.get("mode") == "core":
+        return [[op, k] for op in OPS for k in CORE_REPS]
+    if len(hist) >= 2:
+        return []          # all representatives: depth 2
+    return alphabet(tier, start)
 
 
 def alphabet(tier, start):
@@ -285,10 +302,11 @@ def cases(tier):
     maxlen = 3
     seqs = []
     for L in range(0, maxlen + 1):
-        for t in itertools.product(pool, repeat=L):
+        # quick tier: every pair over the quick representatives, triples over the first twelve of them
+        for t in itertools.product(pool if (tier != "quick" or L < 3) else pool[:12], repeat=L):
             seqs.append(list(t))
     if tier != "quick":
-        for t in itertools.product(QUICK_REPS, repeat=4):
+        for t in itertools.product(QUICK_REPS[:14], repeat=4):
             seqs.append(list(t))
     for ks in seqs:
         srcs = [REPS[k][1] for k in ks]
@@ -393,6 +411,7 @@ def nontrivial(case, rs):
 
 
 def bounds(tier):
-    return {"search_depth": depth(tier), "search_key_reps": [REPS[k][1] for k in reps_for(tier)], "search_ops": OPS,
+    return {"search_depth": depth(tier) if tier == "quick" else "2 over every representative, 3 over the core representatives",
+            "search_key_reps": [REPS[k][1] for k in reps_for(tier)], "search_core_reps": [REPS[k][1] for k in CORE_REPS], "search_ops": OPS,
             "start_states": [s["name"] for s in starts(tier)],
-            "grid_pool": len(QUICK_REPS if tier == "quick" else REPS), "grid_max_len": 3 if tier == "quick" else "3 (all reps), 4 (8 reps)"}
+            "grid_pool": len(QUICK_REPS if tier == "quick" else REPS), "grid_max_len": "2 (quick reps), 3 (12 reps)" if tier == "quick" else "3 (all reps), 4 (14 reps)"}
